@@ -11,7 +11,7 @@ for d in sorted(glob.glob('/verif/seeded/*')):
         br = br[:147] + '…'
     c = m.get('confirmed')
     ok = 'yes' if isinstance(c, dict) and c.get('ok') else ('no: %s' % json.dumps(c) if isinstance(c, dict) else 'agent only')
-    by = ", ".join(m.get('detected_by') or []) or '**missed**'
+    by = ", ".join(m.get('detected_by') or []) or '**%s**' % m.get('verdict', 'missed')
     ran = (m.get('what_i_ran') or '').replace('|', '/').replace('tools/mutant.sh patch ', '')
     if len(ran) > 260:
         ran = ran[:257] + '…'
